@@ -595,7 +595,7 @@ func blockContainerLayout(context *layoutContext, box_ Box, bottomSpace pr.Float
 		}
 	}
 
-	if nextPage.Page == "" {
+	if nextPage.Page == "" && !nextPage.Named {
 		_, nextPage.Page = newBox.PageValues()
 	}
 
@@ -858,10 +858,9 @@ func inFlowLayout(context *layoutContext, box_ bo.Box, index int, child_ Box, ne
 	if lastInFlowChild != nil {
 		// Between in-flow siblings
 		pageBreak = blockLevelPageBreak(lastInFlowChild, child_)
-		pageName_ := blockLevelPageName(lastInFlowChild, child_)
-		if pageName_ != "" || forcePageBreak(pageBreak, context) {
+		if blockLevelPageNameChanges(lastInFlowChild, child_) || forcePageBreak(pageBreak, context) {
 			pageName, _ := child.PageValues()
-			nextPage = tree.PageBreak{Break: pageBreak, Page: pageName}
+			nextPage = tree.PageBreak{Break: pageBreak, Page: pageName, Named: true}
 			resumeAt = tree.ResumeStack{index: nil}
 			stop = true
 			return abort, stop, resumeAt, positionY, *adjoiningMargins, nextPage, newChildren, maxLines
@@ -1138,15 +1137,12 @@ func blockLevelPageBreak(siblingBefore, siblingAfter Box) string {
 	return string(result)
 }
 
-// Return the next page name when siblings don't have the same names,
-// or the zero value.
-func blockLevelPageName(siblingBefore, siblingAfter Box) pr.Page {
+// Return whether siblings don't have the same page names
+// (the name after may be the empty, unnamed page type).
+func blockLevelPageNameChanges(siblingBefore, siblingAfter Box) bool {
 	_, beforePage := siblingBefore.PageValues()
 	afterPage, _ := siblingAfter.PageValues()
-	if beforePage != afterPage {
-		return afterPage
-	}
-	return ""
+	return beforePage != afterPage
 }
 
 // Find the last possible page break in “children“
